@@ -48,13 +48,14 @@ TOTAL2 = [("wrapping_add", "WrappingAdd"), ("wrapping_sub", "WrappingSub"), ("wr
           ("saturating_add", "SaturatingAdd"), ("saturating_sub", "SaturatingSub"), ("saturating_mul", "SaturatingMul")]
 OVER2 = [("overflowing_add", "OverflowingAdd"), ("overflowing_sub", "OverflowingSub"), ("overflowing_mul", "OverflowingMul")]
 
-def int_lifts(file, V, fields, T, tier):
+def int_lifts(file, V, fields, T, tier, division=True):
     p = f"{V.lower()}_{T}"
     n = DIM[V]
     dom = f"all {V}<{T}> pairs: every element any {T} value ({n} symbolic lanes per operand)"
     dom1 = f"all {V}<{T}>: every element any {T} value ({n} symbolic lanes)"
     ty = f"{V}<{T}> ({fields})"
     for m, tr in CHECKED2:
+        if not division and ("div" in m or "rem" in m): continue
         emit(file, f"lift_checked2!{{c20_{p}_{m}, w_{p}_{m}, {ty}, {tr}::{m}}}")
         meta(f"c20_{p}_{m}", tier, f"{tr}::{m} on {V}<{T}>: Some(v) with v.i == scalar {m}(a.i,b.i) for all i; None iff some lane is None",
              dom, timeout=tmo(V))
@@ -69,7 +70,7 @@ def int_lifts(file, V, fields, T, tier):
         emit(file, f"lift_overflowing2!{{c20_{p}_{m}, w_{p}_{m}, {ty}, {tr}::{m}}}")
         meta(f"c20_{p}_{m}", tier, f"{tr}::{m} on {V}<{T}>: lanes == scalar wrapped results, flag == OR of the lane overflow flags", dom, timeout=tmo(V))
     pre = "every lane: b.i != 0" + (f" and not (a.i == {T}::MIN and b.i == -1)" if T.startswith("i") else "")
-    for m in ("div_euclid", "rem_euclid"):
+    for m in ("div_euclid", "rem_euclid") if division else ():
         emit(file, f"lift_euclid2!{{c20_{p}_{m}, w_{p}_{m}, {ty}, {m}}}")
         meta(f"c20_{p}_{m}", tier, f"Euclid::{m} on {V}<{T}> (precondition form): no panic and r.i == scalar {m}(a.i,b.i)",
              f"all {V}<{T}> pairs satisfying the scalar precondition in {pre}", timeout=tmo(V))
@@ -150,7 +151,7 @@ UF_NOTE = ("; the scalar f32 operation of the dependency is replaced (kani::stub
            "argument bit patterns (Ackermann encoding, seeded with every lane's argument tuple; unseeded arguments get unconstrained values), so the law is proved for every deterministic scalar operation, hence for the real one")
 
 def ufcap(lanes):
-    return 4 if lanes <= 4 else 16 if lanes <= 16 else 64
+    return 4 if lanes <= 4 else 16 if lanes <= 16 else 32 if lanes <= 32 else 64
 def ufstubs(lanes):
     c = ufcap(lanes)
     return f"stubs(uf{c}_seed, uf{c}_f32_abs_diff_eq, uf{c}_f32_relative_eq, uf{c}_f32_ulps_eq)"
@@ -278,7 +279,7 @@ def main():
         f = "gen_lifts_quick.rs" if tier == "quick" else "gen_lifts_thorough.rs"
         for T in ("i8", "u8"):
             int_lifts(f, V, fields, T, tier)
-    int_lifts("gen_lifts_thorough.rs", "Vec4", "x y z w", "i16", "thorough")
+    int_lifts("gen_lifts_thorough.rs", "Vec4", "x y z w", "i16", "thorough", division=False)
     for V, fields in (("Vec2", "x y"), ("Vec3", "x y z"), ("Vec4", "x y z w")):
         euclid_panics("gen_lifts_quick.rs", V, fields, "i8", "quick")
     euclid_panics("gen_lifts_quick.rs", "Vec4", "x y z w", "u8", "quick")
